@@ -118,7 +118,21 @@ func stackFor(op byte, r *Rng) [][]byte {
 				size = 0
 			}
 		}
-		st = append(st, s, vm.Uint64Bytes(uint64(off)), vm.Uint64Bytes(uint64(size)))
+		offB, sizeB := vm.Uint64Bytes(uint64(off)), vm.Uint64Bytes(uint64(size))
+		if r.Chance(20) {
+			// int64 boundary: offset + size around and beyond 2^63 (the sum must be overflow-checked),
+			// operands at 2^63-1, 2^63, 2^64-1
+			big := []uint64{1<<63 - 1, 1<<63 - 2, 1 << 63, 1<<64 - 1, 1 << 62, 1<<63 - uint64(len(s)) - 1}
+			switch r.Intn(3) {
+			case 0:
+				offB = vm.Uint64Bytes(big[r.Intn(len(big))])
+			case 1:
+				sizeB = vm.Uint64Bytes(big[r.Intn(len(big))])
+			default:
+				offB, sizeB = vm.Uint64Bytes(big[r.Intn(len(big))]), vm.Uint64Bytes(big[r.Intn(len(big))])
+			}
+		}
+		st = append(st, s, offB, sizeB)
 	case op == 0x80 || op == 0x81: // LEFT / RIGHT: string size
 		s := r.Bytes(r.Intn(20))
 		size := r.Intn(len(s) + 2)
@@ -170,6 +184,30 @@ func stackFor(op byte, r *Rng) [][]byte {
 		if r.Chance(20) && len(sigs) > 0 {
 			sigs[0][3] ^= 1
 		}
+		if n > 0 && r.Chance(25) {
+			// a public key of the wrong length at any position, also below the last key the
+			// signatures match (the up-front length check must make the whole op false)
+			k := r.Intn(n)
+			switch r.Intn(3) {
+			case 0:
+				pubs[k] = pubs[k][:31]
+			case 1:
+				pubs[k] = append(append([]byte{}, pubs[k]...), 0)
+			default:
+				pubs[k] = []byte{}
+			}
+			if r.Chance(60) && m < n {
+				// all m signatures valid and matched by the keys popped first
+				sigs = nil
+				cnt := 0
+				for i := 0; i < n && cnt < m; i++ {
+					if i != k {
+						sigs = append(sigs, ed25519.Sign(privs[i], msg))
+						cnt++
+					}
+				}
+			}
+		}
 		// stack (bottom→top): sigs (last popped first...) msg pubs m n ; pops: n, m, pubs..., msg, sigs...
 		for i := len(sigs) - 1; i >= 0; i-- {
 			st = append(st, sigs[i])
@@ -199,7 +237,12 @@ func stackFor(op byte, r *Rng) [][]byte {
 		if r.Chance(60) {
 			lim = uint64(r.Intn(400))
 		}
-		st = append(st, vm.Uint64Bytes(uint64(r.Intn(k+2))), predicates[r.Intn(len(predicates))], vm.Uint64Bytes(lim))
+		limB := vm.Uint64Bytes(lim)
+		if r.Chance(15) {
+			// limit operands at the int64 boundary (must be BadValue from 2^63 on)
+			limB = vm.Uint64Bytes([]uint64{1<<63 - 1, 1 << 63, 1<<64 - 1, 1<<64 - 50000, 1 << 62}[r.Intn(5)])
+		}
+		st = append(st, vm.Uint64Bytes(uint64(r.Intn(k+2))), predicates[r.Intn(len(predicates))], limB)
 	default:
 		if _, _, ar, isNum := numericExpect(op, nil); isNum && r.Chance(85) {
 			for i := 0; i < ar; i++ {
